@@ -209,6 +209,16 @@ pub fn beat() {
   HEARTBEAT.fetch_add(1, Ordering::Relaxed);
 }
 
+/// tapes of the cases the workers are running right now (one slot per worker thread, each behind its own lock), so that
+/// the watchdog can save what a stuck worker was doing
+type Slot = std::sync::Arc<std::sync::Mutex<Option<(usize, Vec<u32>)>>>;
+static INFLIGHT: once_cell::sync::Lazy<std::sync::Mutex<Vec<Slot>>> = once_cell::sync::Lazy::new(|| std::sync::Mutex::new(Vec::new()));
+fn new_slot() -> Slot {
+  let s: Slot = Default::default();
+  INFLIGHT.lock().unwrap().push(s.clone());
+  s
+}
+
 fn start_watchdog(id: &'static str) {
   std::thread::spawn(move || {
     let mut last = HEARTBEAT.load(Ordering::Relaxed);
@@ -220,6 +230,19 @@ fn start_watchdog(id: &'static str) {
         idle += 5;
         if idle >= 180 {
           println!("INCONCLUSIVE property={id} watchdog: no case finished for {idle}s");
+          // save the tapes of the cases that are still running (replay: ./check <id> --replay <file>)
+          let dir = out_dir().join("replays");
+          let _ = std::fs::create_dir_all(&dir);
+          for (w, slot) in INFLIGHT.lock().unwrap().iter().enumerate() {
+            if let Ok(g) = slot.try_lock() {
+              if let Some((part, words)) = &*g {
+                let p = dir.join(format!("{id}-stuck-{w}.json"));
+                let j = serde_json::json!({"property": id, "part": part, "words": words, "note": "raw tape of a case that had not finished when the watchdog fired"});
+                let _ = std::fs::write(&p, serde_json::to_string_pretty(&j).unwrap());
+                println!("  stuck case saved: {}", p.display());
+              }
+            }
+          }
           std::process::exit(2);
         }
       } else {
@@ -270,6 +293,15 @@ fn seed_bytes(seed: u64, part: usize, worker: usize) -> [u8; 32] {
   b
 }
 
+struct ClearSlot<'a>(&'a Slot);
+impl Drop for ClearSlot<'_> {
+  fn drop(&mut self) {
+    if let Ok(mut g) = self.0.lock() {
+      *g = None;
+    }
+  }
+}
+
 fn random_part(prop: &Prop, pi: usize, cases: u64, seed: u64, tier: Tier, known: &[String], workers: usize) -> (Stats, Option<Failure>) {
   let part = &prop.parts[pi];
   let per = (cases + workers as u64 - 1) / workers as u64;
@@ -291,7 +323,10 @@ fn random_part(prop: &Prop, pi: usize, cases: u64, seed: u64, tier: Tier, known:
           };
           let mut runner = TestRunner::new_with_rng(cfg, TestRng::from_seed(RngAlgorithm::ChaCha, &seed_bytes(seed, pi, w)));
           let strat = pvec(any::<u32>(), 0..=part.tape_len);
+          let slot = new_slot();
           let res = runner.run(&strat, |tape| {
+            *slot.lock().unwrap() = Some((pi, tape.clone()));
+            let _clear = ClearSlot(&slot);
             let mut c = Tape::new(&tape);
             let counting = !failed.load(Ordering::Relaxed);
             let sample_now = counting && {
@@ -726,7 +761,18 @@ pub fn replay_file(prop: &Prop, path: &str) -> i32 {
   };
   let part = j["part"].as_u64().unwrap_or(0) as usize;
   let picks: Vec<u32> = j["picks"].as_array().map(|a| a.iter().map(|x| x.as_u64().unwrap_or(0) as u32).collect()).unwrap_or_default();
-  let o = replay_picks(prop, part.min(prop.parts.len() - 1), &picks, Tier::Quick, &[]);
+  let part = part.min(prop.parts.len() - 1);
+  let o = if let Some(words) = j["words"].as_array() {
+    // a raw tape (saved by the watchdog): decode it the way the random driver does
+    let words: Vec<u32> = words.iter().map(|x| x.as_u64().unwrap_or(0) as u32).collect();
+    let mut c = Tape::new(&words);
+    let ctx = Ctx { tier: Tier::Quick, want_desc: true, active_known: vec![], part };
+    let o = run_one(prop.parts[part].run, &mut c, &ctx);
+    println!("resolved picks: {:?}", c.record());
+    o
+  } else {
+    replay_picks(prop, part, &picks, Tier::Quick, &[])
+  };
   println!("case: {}", serde_json::to_string_pretty(o.desc.as_ref().unwrap_or(&J::Null)).unwrap());
   match o.verdict {
     Verdict::Violation { sig, detail } => {
